@@ -396,3 +396,15 @@ Fixpoint dump_f (s : fs) (fuel : nat) (d : nat) (prefix : list bytes) : list (li
                   else []) (ents s)
   end.
 Definition dump (s : fs) : list (list bytes * N * bytes) := dump_f s (length (kinds s)) ROOT [].
+
+(* encodings for the harness (lists of Z): [count; per entry: number of components; per component:
+   length, bytes; kind code; body length, body bytes] *)
+Definition enc_bytes (x : bytes) : list Z := Z.of_nat (length x) :: map Z.of_N x.
+Definition enc_dump (l : list (list bytes * N * bytes)) : list Z :=
+  Z.of_nat (length l) ::
+  flat_map (fun e => let '(p, k, body) := e in
+                     Z.of_nat (length p) :: flat_map enc_bytes p ++ Z.of_N k :: enc_bytes body) l.
+(* tie T2d, one case: [first disagreement + 1 | 0; calls compared; left the model at + 1 | 0] ++ the final tree *)
+Definition dagree_case (rp : bytes) (s : fs) (t : fdt) (tr : list (call * resp)) : list Z :=
+  let '(bad, n, lft, st) := dagree_trace rp {| ds := s; dt := t; dseen := [] |} tr 0 0 in
+  [Z.of_N bad; Z.of_N n; Z.of_N lft] ++ enc_dump (dump (ds st)).
